@@ -790,6 +790,30 @@ def reload_zero(ctx):
                 n += 1
                 ctx.violate(q, '`%s` is taken over only when it is truthy (`if %s: %s`): a stored 0 is replaced by the default' % (norm(t), norm(t), norm(a)[:50]), i_,
                             'a transaction sent with an input sequence of 0 reloads with 0xffffffff: w.transaction(txid).raw_hex() differs from the stored raw transaction')
+    def _col(x):
+        return isinstance(x, ast.Attribute) and x.attr in numeric
+    holders = {}
+    for a in ast.walk(fn):
+        if isinstance(a, ast.Assign) and len(a.targets) == 1 and isinstance(a.targets[0], ast.Name) and _col(a.value):
+            holders[a.targets[0].id] = a.value
+    for x in ast.walk(fn):
+        col = None
+        if isinstance(x, ast.BoolOp) and isinstance(x.op, ast.Or) and _col(x.values[0]):
+            col, form = x.values[0], '`%s`' % norm(x)
+        elif isinstance(x, ast.IfExp) and _col(x.test) and any(norm(y) == norm(x.test) for y in ast.walk(x.body)):
+            col, form = x.test, '`%s`' % norm(x)
+        elif isinstance(x, ast.IfExp) and isinstance(x.test, ast.UnaryOp) and isinstance(x.test.op, ast.Not) and _col(x.test.operand) and \
+                any(norm(y) == norm(x.test.operand) for y in ast.walk(x.orelse)):
+            col, form = x.test.operand, '`%s`' % norm(x)
+        elif isinstance(x, ast.If) and isinstance(x.test, ast.UnaryOp) and isinstance(x.test.op, ast.Not):
+            o = x.test.operand
+            tgt = o.id if isinstance(o, ast.Name) and o.id in holders else None
+            if tgt and any(isinstance(a, ast.Assign) and any(isinstance(t, ast.Name) and t.id == tgt for t in a.targets) for a in ast.walk(ast.Module(body=x.body, type_ignores=[]))):
+                col, form = holders[tgt], '`if not %s: %s = ...`' % (tgt, tgt)
+        if col is not None:
+            n += 1
+            ctx.violate(q, '`%s` is taken over only when it is truthy (%s): a stored 0 is replaced by the default' % (norm(col), form[:70]), x,
+                        'a transaction sent with an input sequence of 0 reloads with 0xffffffff: w.transaction(txid).raw_hex() differs from the stored raw transaction')
     uses = sum(1 for x in ast.walk(fn) if isinstance(x, ast.Attribute) and x.attr in numeric and isinstance(x.ctx, ast.Load))
     ctx.saw('%d reads of numeric columns in from_txid, %d of them taken over under a truthiness test of the value itself' % (uses, n))
     ctx.floor(uses, 10, 'reads of numeric columns')
@@ -846,6 +870,9 @@ def outputs_numbered(ctx):
                     muts.append((node, y, 'shuffle'))
                 elif isinstance(y, ast.Delete) and any(lst in norm(t) for t in y.targets):
                     muts.append((node, y, 'del'))
+                elif isinstance(y, ast.Assign) and any(norm(t) == lst or (isinstance(t, ast.Subscript) and norm(t.value) == lst) for t in y.targets) and \
+                        not (isinstance(y.value, ast.List) and not y.value.elts):
+                    muts.append((node, y, 'assignment'))
         if not muts:
             continue
         renum_nodes = []
